@@ -328,11 +328,9 @@ def run(ctx):
     neg = False
     for x in cfg.nodes:
         if x.kind == 'stmt' and isinstance(x.ast, ast.Return):
-            g = cfg.guards(x)
-            if g and norm(g[0][0]) in ('check_after_seconds < 0',
-                                       '0 > check_after_seconds') and \
-                    g[0][1]:
-                neg = cfg.dominates(x.pred[0][0], rs[0][0]) or True
+            if U.guarded(cfg, x, 'check_after_seconds < 0', True) and \
+                    len(U.guard_atoms(cfg, x)) == 1:
+                neg = True
     r4.check(neg, ctx.construct(ic, extra='negative delay disables'),
              'a negative delay does not disable the check', ctx.loc(ic))
     st_kw = U.kwarg(scan[0][1], 'state')
